@@ -287,6 +287,7 @@ func guard(f func() string) (msg string) {
 type heldRec struct {
 	b, snap []byte
 	r       resource.Resource
+	back    resource.Resource
 	m       store.Marshaler
 	label   string
 }
@@ -336,7 +337,20 @@ func roundtripScenario(shard, n int) explore.Scenario {
 						if err != nil {
 							return "UnmarshalResource: " + err.Error()
 						}
-						return same(r, back, time.Nanosecond)
+						if d := same(r, back, time.Nanosecond); d != "" {
+							return d
+						}
+						// the bytes and the decoded object handed out for the previous resource stay what they were
+						if h, ok := held["wire"]; ok {
+							if !bytes.Equal(h.b, h.snap) {
+								return fmt.Sprintf("the wire bytes returned earlier for [%s] changed after this marshal call", h.label)
+							}
+							if d := same(h.r, h.back, time.Nanosecond); d != "" {
+								return fmt.Sprintf("the object decoded earlier for [%s] changed after this round trip: %s", h.label, d)
+							}
+						}
+						held["wire"] = heldRec{b: b, snap: append([]byte(nil), b...), r: r, back: back, label: label}
+						return ""
 					})
 					enc++
 					if msg != "" {
